@@ -247,14 +247,12 @@ pub fn probe_auth(sim: &mut Sim) {
 
 /// C16: every query kind x id class; results equal raw storage; storage untouched;
 /// reported amounts equal what a cancel pays.
-pub fn probe_query(sim: &mut Sim) {
-    let book = sim.book.clone();
-    let mut rng = probe_rng(sim, 0x16);
-    let before = sim.chain.storage.data.clone();
+/// the configuration and version queries against the raw records (also used on the harness's
+/// synthesised pre-migration state, where the stored version is an old or unreadable one)
+pub fn probe_query_singletons(sim: &mut Sim) {
     let raw_json = |key: &[u8], sim: &Sim| -> Option<Value> {
         sim.chain.storage.data.get(key).and_then(|v| serde_json::from_slice::<Value>(v).ok())
     };
-    // configuration and version
     for (q, key) in [
         (json!({"get_contract_info": {}}), b"contract_info".as_slice()),
         (json!({"get_version_info": {}}), b"version_info".as_slice()),
@@ -266,6 +264,7 @@ pub fn probe_query(sim: &mut Sim) {
         sim.cov.hit("C16", h.finish(), true);
         match (&got, &want) {
             (Ok(g), Some(w)) if g == w => {}
+            (Err(_), None) => {}
             _ => sim.flag(
                 &["C16"],
                 "P-query.singleton",
@@ -275,6 +274,16 @@ pub fn probe_query(sim: &mut Sim) {
             ),
         }
     }
+}
+
+pub fn probe_query(sim: &mut Sim) {
+    let book = sim.book.clone();
+    let mut rng = probe_rng(sim, 0x16);
+    let before = sim.chain.storage.data.clone();
+    let raw_json = |key: &[u8], sim: &Sim| -> Option<Value> {
+        sim.chain.storage.data.get(key).and_then(|v| serde_json::from_slice::<Value>(v).ok())
+    };
+    probe_query_singletons(sim);
     // ids to ask about
     let mut ids: Vec<(String, &'static str)> = vec![];
     for id in book.asks.keys() {
